@@ -204,7 +204,9 @@ def odb_cases(draw):
     if outside != "none":
         lines.append("import helpers\nh1 = helpers.make(C())\nh2 = helpers.make(%s)\n" % draw(st.sampled_from(_ARGS[:6])))
     return {"kind": "objectdb", "files": {"mod.py": "".join(lines), "other.py": other}, "reopens": draw(st.integers(1, 2)), "sync_between": draw(st.booleans()),
-            "outside": outside, "validate": draw(st.booleans())}
+            "outside": outside, "validate": draw(st.booleans()),
+            # after the analysis the module is renamed through rope and a new module is created and analysed under the old path
+            "rename_recreate": draw(st.integers(0, 2)) == 0}
 
 
 def strategy(tier):
@@ -446,6 +448,13 @@ def _eval_odb(case):
             if case.get("sync_between") and i_ == 0:
                 # the same session saves once in the middle (project.sync()) and goes on collecting information
                 project.sync()
+        if case.get("rename_recreate"):
+            _odb_image(project)  # (every stored file has been looked up once)
+            project.get_file("mod.py").move("moved.py")
+            fresh = project.root.create_file("mod.py")
+            fresh.write("class C:\n    def m(self, p):\n        return p\ndef f0(a, b=None):\n    return [a]\nq1 = f0(C())\nq2 = C().m(1.5)\n")
+            project.pycore.analyze_module(fresh)
+            out.labels["objectdb:rename_then_recreate"] += 1
         img = _odb_image(project)
         ncalls = sum(len(s[0]) for f in img.values() for s in f.values())
         npn = sum(len(s[1]) for f in img.values() for s in f.values())
